@@ -64,6 +64,7 @@ def shards(tier, seed):
         for b in range(8):
             out.append(("prefixes", nt, b, 8))
     out.append(("generated",))
+    out.append(("files-edited",))
     out.append(("redef", 0, None))
     for e in RD_EVENTS:
         out.append(("redef", 4 if tier == "quick" else 5, list(e)))
@@ -555,6 +556,56 @@ class RedefDriver(explore.Driver):
         acc.sample({"clause": "redefined", "history": [list(e) for e in hist]}, limit=2)
 
 
+# ----------------------------------------------------------------------------- (g) the files change between two loads
+
+
+def run_files_edited(acc):
+    """the definitions 'written' are those in the files NOW: a main file importing a second one, loaded through a disk
+    cache folder, one of the two (or both) edited, loaded again through the same folder — every factor of the second
+    registry is the ratio the independent reader derives from the files as they are then"""
+    import os
+    import shutil
+    import tempfile
+    pint = core.boot()
+
+    def texts(rod, furl, pole):
+        return {"part.txt": ["meter = [length] = m", f"rod = {rod} * meter", "span = 9 * inch_", "inch_ = 1 / 40 * meter"], "main.txt": ["kilo- = 1000 = k-", "@import part.txt", f"furl = {furl} * rod", f"pole = {pole} * rod * span"]}
+
+    versions = {"imported-file-edited": (texts(3, 40, 2), texts(7, 40, 2)), "main-file-edited": (texts(3, 40, 2), texts(3, 50, 2)), "both-edited": (texts(3, 40, 2), texts(7, 50, 5)), "nothing-edited": (texts(3, 40, 2), texts(3, 40, 2))}
+    probes = [({"rod": 1}, {"meter": 1}), ({"furl": 1}, {"meter": 1}), ({"furl": 1}, {"rod": 1}), ({"pole": 1}, {"meter": 2}), ({"kilorod": 1}, {"furl": 1}), ({"span": 1}, {"meter": 1})]
+    for vname, (t1, t2) in versions.items():
+        for nt in ("float", "Fraction", "Decimal"):
+            scratch = tempfile.mkdtemp(prefix="c02files_", dir=os.environ.get("VERIF_SCRATCH") or None)
+            try:
+                kw = {} if nt == "float" else {"non_int_type": {"Fraction": Fraction, "Decimal": Decimal}[nt]}
+                cf = os.path.join(scratch, "cache")
+                for t in (t1, t2):
+                    for fn, lines in t.items():
+                        with open(os.path.join(scratch, fn), "w", encoding="utf-8") as fh:
+                            fh.write("\n".join(lines) + "\n")
+                    ureg = pint.UnitRegistry(os.path.join(scratch, "main.txt"), cache_folder=cf, **kw)
+                    for a, b in probes:  # ask the first registry too: whatever it stores must not answer for the second
+                        conv_out(lambda: ureg.convert(1, ureg.UnitsContainer(a), ureg.UnitsContainer(b)))
+                        conv_out(lambda: ureg.get_root_units(ureg.UnitsContainer(a)))
+                M = defs.read([ln for ln in t2["main.txt"] if not ln.startswith("@import")][:1] + t2["part.txt"] + [ln for ln in t2["main.txt"] if not ln.startswith("@import")][1:])
+                for a, b in probes:
+                    want = exact_ratio(M, a, b)
+                    wroot = M.root_of_units(a)
+                    obs = [("convert", conv_out(lambda: ureg.convert(1, ureg.UnitsContainer(a), ureg.UnitsContainer(b))), want),
+                           ("Quantity.to", conv_out(lambda: ureg.Quantity(1, ureg.UnitsContainer(a)).to(ureg.UnitsContainer(b)).magnitude), want),
+                           ("get_root_units", conv_out(lambda: ureg.get_root_units(ureg.UnitsContainer(a))[0]), defs.Mono(wroot.coef)),
+                           ("to_root_units", conv_out(lambda: ureg.Quantity(1, ureg.UnitsContainer(a)).to_root_units().magnitude), defs.Mono(wroot.coef))]
+                    for api, o, w in obs:
+                        acc.ev()
+                        acc.nt(("files-edited", vname, nt, tuple(a.items()), tuple(b.items()), api))
+                        if o[0] != "ok" or not close(o[1], w, nt):
+                            acc.violation(["files-edited", api, "factor-is-not-the-ratio-of-the-definitions-now-in-the-files", vname], {"nt": nt, "edit": vname, "a": a, "b": b, "files": t2}, str(w.coef), show(o[1]) if o[0] == "ok" else o)
+            finally:
+                shutil.rmtree(scratch, ignore_errors=True)
+    acc.outcome("files-edited")
+    acc.sample({"clause": "files-edited", "edit": "imported-file-edited", "probe": "get_root_units(rod) after rod = 3 * meter became rod = 7 * meter"})
+
+
 # ----------------------------------------------------------------------------- dispatch / replay
 
 
@@ -572,6 +623,8 @@ def run_shard(acc, shard, tier, seed):
         run_compound(acc, shard[1], shard[2], shard[3], tier)
     elif k == "generated":
         run_generated(acc)
+    elif k == "files-edited":
+        run_files_edited(acc)
     elif k == "redef":
         drv = RedefDriver()
         first = None if shard[2] is None else tuple(shard[2])
@@ -587,7 +640,9 @@ def replay(rec):
     nt = case.get("nt", "Fraction")
     tier = rec.get("tier", "quick")
     acc = core.Acc(PROPERTY)
-    if site[0] == "redefined":
+    if site[0] == "files-edited":
+        run_files_edited(acc)
+    elif site[0] == "redefined":
         drv = RedefDriver()
         hist = tuple(tuple(e) for e in case["history"])
         st, outs = explore.run_history(drv, hist)
